@@ -39,33 +39,142 @@ private theorem computePN_none_iff [Geo V N] (vs : List V) (idx : List Tri) :
   unfold computePN
   cases allCoords vs idx <;> simp
 
-/-- what `scaled` does to each field -/
-theorem scaled_spec [Geo V N] {dim3 : Bool} {fV : V → V} {s s' : Mesh V N} (h : scaled dim3 fV s = some s') :
-    s'.vertices = s.vertices.map fV ∧ s'.indices = s.indices ∧ s'.flags = s.flags ∧ s'.topology = s.topology ∧
-    s'.cc = s.cc ∧ s'.qbvh = s.qbvh.map (·.map (mapTri fV)) ∧
-    s'.pn = (if dim3 && s.pn.isSome then computePN (s.vertices.map fV) s.indices else s.pn) := by
-  unfold scaled at h
+/-- what `reverse` does to each field -/
+theorem reverse_spec_full [Geo V N] {dim3 : Bool} {s s' : Mesh V N} (h : reverse dim3 s = some s') :
+    s'.vertices = s.vertices ∧ s'.indices = revIdx s.indices ∧ s'.flags = s.flags ∧
+    s'.topology = (if s.flags.topoFamily then topoOf s.vertices.length (revIdx s.indices) else s.topology) ∧
+    s'.cc = s.cc ∧ s'.qbvh = s.qbvh ∧ s'.pn = (if dim3 then s.pn.map (negPN (V := V) · true) else s.pn) := by
+  unfold reverse retopo at h
+  cases dim3 <;> simp only [Bool.false_eq_true, if_false, if_true] at h ⊢ <;>
+  · split at h
+    · rename_i htf
+      split at h
+      · cases h
+      · rename_i s3 r hts
+        cases h
+        obtain ⟨ev, ei, e2, e3, ef, et, eq⟩ := topoStep_spec hts
+        simp only [if_false, Bool.false_eq_true] at ev ei e2 e3 ef et eq htf
+        refine ⟨ev, ei, ef, ?_, e2, eq, e3⟩
+        rw [et, ev, ei, if_pos htf]
+    · rename_i htf
+      cases h
+      simp_all
+
+/-- the branch condition of the `reverse()` inside `scaled` (commit 1a6b99a) -/
+def rewinds (dim3 mirror : Bool) (f : Flags) : Bool := dim3 && f.oriented && mirror
+
+theorem rewind_spec [Geo V N] {dim3 mirror : Bool} {s s' : Mesh V N} (h : rewind dim3 mirror s = some s') :
+    s'.vertices = s.vertices ∧ s'.indices = (if rewinds dim3 mirror s.flags then revIdx s.indices else s.indices) ∧
+    s'.flags = s.flags ∧
+    s'.topology = (if rewinds dim3 mirror s.flags && s.flags.topoFamily then topoOf s.vertices.length (revIdx s.indices)
+      else s.topology) ∧
+    s'.cc = s.cc ∧ s'.qbvh = s.qbvh ∧ s'.pn.isSome = s.pn.isSome ∧ (dim3 = false → s'.pn = s.pn) := by
+  unfold rewind at h
+  unfold rewinds
+  by_cases hm : (dim3 && s.flags.oriented && mirror) = true
+  · simp only [hm, if_true] at h ⊢
+    obtain ⟨a, b, c, d, e, f, g⟩ := reverse_spec_full h
+    refine ⟨a, b, c, ?_, e, f, ?_, ?_⟩
+    · rw [d]; simp
+    · rw [g]; cases dim3 <;> simp
+    · intro hd; subst hd; simp at hm
+  · simp only [hm] at h ⊢
+    simp only [Bool.false_eq_true, if_false, Option.some.injEq, Bool.false_and] at h ⊢
+    subst h
+    simp
+
+theorem repn_spec [Geo V N] {dim3 : Bool} {s s' : Mesh V N} (h : repn dim3 s = some s') :
+    s'.vertices = s.vertices ∧ s'.indices = s.indices ∧ s'.flags = s.flags ∧ s'.topology = s.topology ∧ s'.cc = s.cc ∧
+    s'.qbvh = s.qbvh ∧ s'.pn = (if dim3 && s.pn.isSome then computePN s.vertices s.indices else s.pn) := by
+  unfold repn at h
   by_cases hp : (dim3 && s.pn.isSome) = true
   · simp only [hp, if_true] at h ⊢
     obtain ⟨a, b, c, d, e, f, g⟩ := pnStep_spec h
-    simp only at a b c d e f g
     exact ⟨a, b, e, c, d, g, f⟩
   · simp only [hp] at h ⊢
     simp only [Bool.false_eq_true, if_false, Option.some.injEq] at h
     subst h
     simp
 
-/-- **`scaled` preserves coherence**: the topology and the connected components do not look at the coordinates, and
-the pseudo-normals, when cached, are recomputed from the scaled vertices.  No hypothesis on the scale: any sign, any
-non-uniformity (indeed any map of the vertices). -/
-theorem scaled_coherent [Geo V N] (dim3 : Bool) (fV : V → V) (s s' : Mesh V N)
-    (hc : Coherent dim3 s) (h : scaled dim3 fV s = some s') : Coherent dim3 s' := by
+/-- what `scaled` does to each field.  `rewinds` = 3-D ∧ ORIENTED ∧ mirroring scale: the index buffer is reversed (and the
+topology recomputed if the flags keep one); otherwise it is kept. -/
+theorem scaled_spec [Geo V N] {dim3 mirror : Bool} {fV : V → V} {s s' : Mesh V N} (h : scaled dim3 mirror fV s = some s') :
+    s'.vertices = s.vertices.map fV ∧
+    s'.indices = (if rewinds dim3 mirror s.flags then revIdx s.indices else s.indices) ∧ s'.flags = s.flags ∧
+    s'.topology = (if rewinds dim3 mirror s.flags && s.flags.topoFamily then topoOf s.vertices.length (revIdx s.indices)
+      else s.topology) ∧
+    s'.cc = s.cc ∧ s'.qbvh = s.qbvh.map (·.map (mapTri fV)) ∧
+    s'.pn = (if dim3 && s.pn.isSome then computePN s'.vertices s'.indices else s.pn) := by
+  unfold scaled at h
+  simp only [Option.map_eq_some_iff, Option.bind_eq_some_iff] at h
+  obtain ⟨s3, ⟨s2, h2, h3⟩, rfl⟩ := h
+  obtain ⟨a2, b2, c2, d2, e2, f2, g2, k2⟩ := rewind_spec h2
+  obtain ⟨a3, b3, c3, d3, e3, f3, g3⟩ := repn_spec h3
+  simp only [List.length_map] at a2 b2 c2 d2 e2 f2 g2
+  refine ⟨by rw [a3, a2], by rw [b3, b2], by rw [c3, c2], by rw [d3, d2], by rw [e3, e2], by simp only; rw [f3, f2], ?_⟩
+  simp only
+  rw [g3, g2, a3, b3]
+  cases hs : s.pn with
+  | none =>
+    have : s2.pn = none := by
+      have := g2; rw [hs] at this
+      cases hq : s2.pn with
+      | none => rfl
+      | some p => rw [hq] at this; cases this
+    simp [this]
+  | some p =>
+    cases hq : s2.pn with
+    | none => rw [hs, hq] at g2; cases g2
+    | some p2 =>
+      cases dim3
+      · have := k2 rfl; rw [hq, hs] at this; simp [this]
+      · simp
+
+/-- on the branch without `reverse()` (2-D, or no `ORIENTED` flag, or an even number of negative factors) `scaled` is the
+function it was before commit 1a6b99a: index buffer kept -/
+theorem scaled_eq_keep [Geo V N] (dim3 mirror : Bool) (fV : V → V) (s : Mesh V N)
+    (hm : rewinds dim3 mirror s.flags = false) : scaled dim3 mirror fV s = scaledKeep dim3 fV s := by
+  unfold scaled scaledKeep rewind repn
+  unfold rewinds at hm
+  simp only [hm, Bool.false_eq_true, if_false, Option.bind_some]
+  by_cases hp : (dim3 && s.pn.isSome) = true
+  · simp only [hp, if_true]
+    unfold pnStep
+    simp only
+    cases (computePN (s.vertices.map fV) s.indices : Option (PN N)) <;> rfl
+  · simp only [hp]
+    rfl
+
+/-- on the mirroring branch `scaled` is `reverse` applied to the mesh with scaled vertices, followed by the recomputation
+of the pseudo-normals and `Qbvh::scaled` -/
+theorem scaled_eq_reverse [Geo V N] (dim3 mirror : Bool) (fV : V → V) (s : Mesh V N)
+    (hm : rewinds dim3 mirror s.flags = true) :
+    scaled dim3 mirror fV s =
+      (((reverse dim3 { s with vertices := s.vertices.map fV }).bind (repn dim3)).map
+        fun s3 => { s3 with qbvh := s3.qbvh.map (·.map (mapTri fV)) }) := by
+  unfold scaled rewind
+  unfold rewinds at hm
+  simp only [hm, if_true]
+
+private theorem allCoords_none_scaled (fV : V → V) (m : Bool) (vs : List V) (idx : List Tri)
+    (h : allCoords vs idx = none) : allCoords (vs.map fV) (if m then revIdx idx else idx) = none := by
+  cases m
+  · simp only [Bool.false_eq_true, if_false]; rw [allCoords_mapTri, h]; rfl
+  · simp only [if_true]; rw [allCoords_rev, allCoords_mapTri, h]; rfl
+
+/-- **`scaled` preserves coherence** — both branches: the connected components do not look at the coordinates nor at the
+orientation, the topology does not look at the coordinates and is recomputed when the index buffer is reversed, and the
+pseudo-normals, when cached, are recomputed from the scaled vertices and the final index buffer.  No hypothesis on the
+scale: any sign, any non-uniformity (indeed any map of the vertices), and no law of geometry is needed (unlike `reverse`
+alone, whose in-place negation of the pseudo-normals relies on `LawfulGeo`). -/
+theorem scaled_coherent [Geo V N] (dim3 mirror : Bool) (fV : V → V) (s s' : Mesh V N)
+    (hc : Coherent dim3 s) (h : scaled dim3 mirror fV s = some s') : Coherent dim3 s' := by
   obtain ⟨ev, ei, ef, et, ec, _, ep⟩ := scaled_spec h
   unfold Coherent at hc ⊢
   simp only [Mesh.derived, derive, Derived.mk.injEq] at hc ⊢
   obtain ⟨hp, ht, hcc⟩ := hc
   refine ⟨?_, ?_, ?_⟩
-  · rw [ep, ev, ei, ef]
+  · rw [ep, ef]
     by_cases hd : dim3 = true
     · subst hd
       simp only [Bool.true_and] at hp ⊢
@@ -77,7 +186,8 @@ theorem scaled_coherent [Geo V N] (dim3 : Bool) (fV : V → V) (s s' : Mesh V N)
           simp only [Option.isSome_none, Bool.false_eq_true, if_false]
           rw [hs] at hp
           have := (computePN_none_iff (N := N) s.vertices s.indices).mp hp.symm
-          exact ((computePN_none_iff (N := N) _ _).mpr (by rw [allCoords_mapTri, this]; rfl)).symm
+          rw [ev, ei]
+          exact ((computePN_none_iff (N := N) _ _).mpr (allCoords_none_scaled fV _ _ _ this)).symm
       · simp only [hf] at hp ⊢
         simp only [Bool.false_eq_true, if_false] at hp ⊢
         rw [hp]; simp
@@ -85,38 +195,64 @@ theorem scaled_coherent [Geo V N] (dim3 : Bool) (fV : V → V) (s s' : Mesh V N)
       subst hd'
       simp only [Bool.false_and, Bool.false_eq_true, if_false] at hp ⊢
       exact hp
-  · rw [et, ev, ei, ef, ht]; simp
-  · rw [ec, ev, ei, ef, hcc]; simp
+  · rw [et, ev, ei, ef, ht]
+    cases rewinds dim3 mirror s.flags <;> cases s.flags.topoFamily <;> simp
+  · rw [ec, ev, ei, ef, hcc]
+    cases rewinds dim3 mirror s.flags <;> simp [computeCC_rev]
 
 /-- `box` and `sbox` (the effect of `Aabb::scaled` on a stored box) satisfy: the scaled box of a triangle is the box of
 the scaled triangle -/
 def ScaleBoxLaw {B : Type} (box : V × V × V → B) (sbox : B → B) (fV : V → V) : Prop :=
   ∀ c : V × V × V, box (mapTri fV c) = sbox (box c)
 
+theorem allCoords_scaledIdx (fV : V → V) (m : Bool) (vs : List V) (idx : List Tri) (cur : List (V × V × V))
+    (h : allCoords vs idx = some cur) :
+    allCoords (vs.map fV) (if m then revIdx idx else idx) =
+      some ((if m then cur.map swapC else cur).map (mapTri fV)) := by
+  cases m
+  · simp only [Bool.false_eq_true, if_false]; rw [allCoords_mapTri, h]; rfl
+  · simp only [if_true]; rw [allCoords_rev, allCoords_mapTri, h]
+    simp only [Option.map_some, List.map_map, Option.some.injEq]
+    apply List.map_congr_left
+    intro c _
+    rfl
+
 /-- **the QBVH after `scaled`, literally**: `Qbvh::scaled` applies `sbox` (= `Aabb::scaled(scale)`) to the boxes the tree
 already holds.  If the tree was coherent (leaf `i` held the box of triangle `i`), then afterwards leaf `i` holds exactly the
-box of the *scaled* triangle `i` — the boxes a fresh `rebuild_qbvh` on the scaled vertices would compute. -/
-theorem scaled_leaf_boxes [Geo V N] {B : Type} (box : V × V × V → B) (sbox : B → B) (dim3 : Bool) (fV : V → V)
+box of the *scaled* triangle `i` — the boxes a fresh `rebuild_qbvh` on the scaled vertices would compute; on the mirroring
+branch triangle `i` is now `[b, a, c]`, whose box is the same (`BoxLaws.swap`: the tree is rightly left alone by the
+`reverse()` inside `scaled`). -/
+theorem scaled_leaf_boxes [Geo V N] {B : Type} (box : V × V × V → B) (hbox : BoxLaws (N := N) box) (sbox : B → B)
+    (dim3 mirror : Bool) (fV : V → V)
     (hl : ScaleBoxLaw box sbox fV) (s s' : Mesh V N)
-    (hq : QCoherent box s) (h : scaled dim3 fV s = some s') :
+    (hq : QCoherent box s) (h : scaled dim3 mirror fV s = some s') :
     ∃ cs cur', s.qbvh = some cs ∧ allCoords s'.vertices s'.indices = some cur' ∧
       cs.map (fun c => sbox (box c)) = cur'.map box := by
   obtain ⟨ev, ei, _, _, _, _, _⟩ := scaled_spec h
   obtain ⟨cs, cur, h1, h2, h3⟩ := hq
-  refine ⟨cs, cur.map (mapTri fV), h1, ?_, ?_⟩
-  · rw [ev, ei, allCoords_mapTri, h2]; rfl
-  · rw [List.map_map]
-    have : (box ∘ mapTri fV) = fun c => sbox (box c) := by funext c; exact hl c
-    rw [this]
-    have h4 : (cs.map box).map sbox = (cur.map box).map sbox := by rw [h3]
-    simp only [List.map_map] at h4
-    exact h4
+  refine ⟨cs, _, h1, by rw [ev, ei]; exact allCoords_scaledIdx fV _ _ _ cur h2, ?_⟩
+  rw [List.map_map]
+  have : (box ∘ mapTri fV) = fun c => sbox (box c) := by funext c; exact hl c
+  rw [this]
+  have h4 : (cs.map box).map sbox = (cur.map box).map sbox := by rw [h3]
+  simp only [List.map_map] at h4
+  have h5 : cs.map (fun c => sbox (box c)) = cur.map (fun c => sbox (box c)) := h4
+  rw [h5]
+  cases rewinds dim3 mirror s.flags
+  · rfl
+  · simp only [if_true, List.map_map]
+    apply List.map_congr_left
+    intro c _
+    obtain ⟨a, b, c⟩ := c
+    simp only [Function.comp, swapC]
+    rw [hbox.swap a b c]
 
 /-- `scaled` keeps the QBVH coherent (in the representation of the model: the recorded triangles are the scaled ones) -/
-theorem scaled_qcoherent [Geo V N] {B : Type} (box : V × V × V → B) (sbox : B → B) (dim3 : Bool) (fV : V → V)
+theorem scaled_qcoherent [Geo V N] {B : Type} (box : V × V × V → B) (hbox : BoxLaws (N := N) box) (sbox : B → B)
+    (dim3 mirror : Bool) (fV : V → V)
     (hl : ScaleBoxLaw box sbox fV) (s s' : Mesh V N)
-    (hq : QCoherent box s) (h : scaled dim3 fV s = some s') : QCoherent box s' := by
-  obtain ⟨cs, cur', h1, h2, h3⟩ := scaled_leaf_boxes box sbox dim3 fV hl s s' hq h
+    (hq : QCoherent box s) (h : scaled dim3 mirror fV s = some s') : QCoherent box s' := by
+  obtain ⟨cs, cur', h1, h2, h3⟩ := scaled_leaf_boxes box hbox sbox dim3 mirror fV hl s s' hq h
   obtain ⟨_, _, _, _, _, eq, _⟩ := scaled_spec h
   refine ⟨cs.map (mapTri fV), cur', by rw [eq, h1]; rfl, h2, ?_⟩
   rw [← h3, List.map_map]
@@ -125,24 +261,36 @@ theorem scaled_qcoherent [Geo V N] {B : Type} (box : V × V × V → B) (sbox : 
   exact hl c
 
 /-- `scaled` never panics on a well-formed mesh and leaves it well formed -/
-theorem scaled_no_panic [Geo V N] (dim3 : Bool) (fV : V → V) (s : Mesh V N) (h : WF s) :
-    ∃ s', scaled dim3 fV s = some s' ∧ WF s' := by
-  have hw : inBounds (s.vertices.map fV).length s.indices = true := by unfold WF at h; simpa using h
-  unfold scaled
-  by_cases hp : (dim3 && s.pn.isSome) = true
-  · simp only [hp, if_true]
-    obtain ⟨p, hp'⟩ := computePN_some (N := N) hw
-    refine ⟨_, by unfold pnStep; simp only [hp']; rfl, ?_⟩
-    unfold WF at h ⊢; simpa using h
-  · simp only [hp]
-    refine ⟨_, rfl, ?_⟩
-    unfold WF at h ⊢; simpa using h
+theorem scaled_no_panic [Geo V N] (dim3 mirror : Bool) (fV : V → V) (s : Mesh V N) (h : WF s) :
+    ∃ s', scaled dim3 mirror fV s = some s' ∧ WF s' := by
+  have hw1 : WF ({ s with vertices := s.vertices.map fV } : Mesh V N) := by unfold WF at h ⊢; simpa using h
+  have h2 : ∃ s2, rewind dim3 mirror ({ s with vertices := s.vertices.map fV } : Mesh V N) = some s2 ∧ WF s2 := by
+    unfold rewind
+    split
+    · exact reverse_no_panic' dim3 hw1
+    · exact ⟨_, rfl, hw1⟩
+  obtain ⟨s2, e2, w2⟩ := h2
+  have h3 : ∃ s3, repn dim3 s2 = some s3 ∧ WF s3 := by
+    unfold repn
+    split
+    · obtain ⟨p, hp'⟩ := computePN_some (N := N) (by unfold WF at w2; exact w2)
+      refine ⟨_, by unfold pnStep; simp only [hp']; rfl, ?_⟩
+      unfold WF at w2 ⊢; simpa using w2
+    · exact ⟨_, rfl, w2⟩
+  obtain ⟨s3, e3, w3⟩ := h3
+  refine ⟨{ s3 with qbvh := s3.qbvh.map (·.map (mapTri fV)) },
+    by unfold scaled; simp only [e2, Option.bind_some, e3, Option.map_some], ?_⟩
+  unfold WF at w3 ⊢; simpa using w3
 
-theorem scaled_cleanBad [Geo V N] (dim3 : Bool) (fV : V → V) (s s' : Mesh V N) (hc : CleanBad s)
-    (h : scaled dim3 fV s = some s') : CleanBad s' := by
+theorem scaled_cleanBad [Geo V N] (dim3 mirror : Bool) (fV : V → V) (s s' : Mesh V N) (hc : CleanBad s)
+    (h : scaled dim3 mirror fV s = some s') : CleanBad s' := by
   obtain ⟨_, ei, ef, _⟩ := scaled_spec h
   unfold CleanBad at hc ⊢
-  rw [ef, ei]; exact hc
+  rw [ef, ei]
+  intro hd
+  cases rewinds dim3 mirror s.flags
+  · exact hc hd
+  · exact deleteBad_rev (hc hd)
 
 /-! ### histories with `scaled` -/
 
@@ -160,7 +308,7 @@ def Op2Lawful [Geo V N] : Op2 V N → Prop
 
 /-- the scale of every `scaled` step satisfies the box law for some `sbox` -/
 def Op2BoxLawful {B : Type} (box : V × V × V → B) : Op2 V N → Prop
-  | .scale fV _ => ∃ sbox : B → B, ScaleBoxLaw box sbox fV
+  | .scale fV _ _ => ∃ sbox : B → B, ScaleBoxLaw box sbox fV
   | _ => True
 
 /-- **C11 with `scaled`, full statement for the fixed code**: after `with_flags` and any finite sequence of `set_flags`,
@@ -186,7 +334,7 @@ theorem history2_coherent [Geo V N] (dim3 : Bool) (hl : dim3 = true → LawfulGe
     · rename_i s1 hs
       apply ih (fun o ho => hops o (List.mem_cons_of_mem _ ho)) s1 h
       cases op with
-      | scale fV fN => exact scaled_coherent dim3 fV s0 s1 hc0 hs
+      | scale fV fN mirror => exact scaled_coherent dim3 mirror fV s0 s1 hc0 hs
       | base op =>
         have hop := hops _ List.mem_cons_self
         simp only [step2] at hs
@@ -222,9 +370,9 @@ theorem history2_qcoherent [Geo V N] {B : Type} (box : V × V × V → B) (hbox 
     · rename_i s1 hs
       apply ih (fun o ho => hops o (List.mem_cons_of_mem _ ho)) s1 h
       cases op with
-      | scale fV fN =>
+      | scale fV fN mirror =>
         obtain ⟨sbox, hl⟩ := hops _ List.mem_cons_self
-        exact scaled_qcoherent box sbox dim3 fV hl s0 s1 hc0 hs
+        exact scaled_qcoherent box hbox sbox dim3 mirror fV hl s0 s1 hc0 hs
       | base op =>
         simp only [step2] at hs
         cases op with
@@ -250,8 +398,8 @@ theorem history2_wf [Geo V N] (dim3 : Bool) (vs : List V) (idx : List Tri) (f : 
     · rename_i s1 hs
       apply ih s1 h
       cases op with
-      | scale fV fN =>
-        obtain ⟨s3, h3, w3⟩ := scaled_no_panic dim3 fV s0 hw0
+      | scale fV fN mirror =>
+        obtain ⟨s3, h3, w3⟩ := scaled_no_panic dim3 mirror fV s0 hw0
         simp only [step2] at hs
         rw [hs] at h3; cases h3; exact w3
       | base op =>
@@ -284,8 +432,8 @@ theorem history2_no_panic [Geo V N] (dim3 : Bool) (vs : List V) (idx : List Tri)
     have hna' : ∀ o ∈ ops, ∀ rhs, o ≠ .base (.append rhs) := fun o ho => hna o (List.mem_cons_of_mem _ ho)
     simp only [run2]
     cases op with
-    | scale fV fN =>
-      obtain ⟨s3, h3, w3⟩ := scaled_no_panic dim3 fV s0 hw0
+    | scale fV fN mirror =>
+      obtain ⟨s3, h3, w3⟩ := scaled_no_panic dim3 mirror fV s0 hw0
       simp only [step2, h3]
       exact ih s3 hna' w3
     | base op =>
@@ -324,13 +472,15 @@ theorem scaledW_coherent_partial [Geo V N] (dim3 : Bool) (fV : V → V) (fN : N 
     simp only [Bool.false_and, Bool.false_eq_true, if_false] at h1 ⊢
     exact h1
 
-/-- as written and fixed, `scaled` agree on everything but the pseudo-normals -/
-theorem scaledW_eq_scaled_except_pn [Geo V N] (dim3 : Bool) (fV : V → V) (fN : N → N) (s s' : Mesh V N)
-    (h : scaled dim3 fV s = some s') :
+/-- as written (pinned tree) and fixed, `scaled` agree on everything but the pseudo-normals — on the branch where the
+current code does not reverse the winding (the pinned code never did) -/
+theorem scaledW_eq_scaled_except_pn [Geo V N] (dim3 mirror : Bool) (fV : V → V) (fN : N → N) (s s' : Mesh V N)
+    (hm : rewinds dim3 mirror s.flags = false) (h : scaled dim3 mirror fV s = some s') :
     (scaledW dim3 fV fN s).vertices = s'.vertices ∧ (scaledW dim3 fV fN s).indices = s'.indices ∧
     (scaledW dim3 fV fN s).flags = s'.flags ∧ (scaledW dim3 fV fN s).topology = s'.topology ∧
     (scaledW dim3 fV fN s).cc = s'.cc ∧ (scaledW dim3 fV fN s).qbvh = s'.qbvh := by
   obtain ⟨a, b, c, d, e, f, _⟩ := scaled_spec h
+  simp only [hm, Bool.false_eq_true, if_false, Bool.false_and] at b d
   simp only [scaledW]
   exact ⟨a.symm, b.symm, c.symm, d.symm, e.symm, f.symm⟩
 
